@@ -61,6 +61,11 @@ def step (st : St) (line : String) : St × String :=
     | some c, some i, some nf, some x, some y =>
       ({ st with db := create st.db c i nf, attrs := st.attrs ++ [((c, i), [x, y])] }, "ok")
     | _, _, _, _, _ => (st, "bad-op")
+  | ["attr", c, i, a, v] =>
+    match c.toNat?, i.toNat?, a.toNat?, optInt? v with
+    | some c, some i, some a, some v =>
+      ({ st with attrs := st.attrs.map fun e => if e.1 == (c, i) then (e.1, e.2.set a v) else e }, "ok")
+    | _, _, _, _ => (st, "bad-op")
   | ["set", c, i, f, v] =>
     match c.toNat?, i.toNat?, f.toNat?, optNat? v with
     | some c, some i, some f, some v => ({ st with db := setFK st.db c i f v }, "ok")
